@@ -83,8 +83,8 @@ fn main() {
         }
     };
     gen::run(&rt, &mut chk, &|| LAST.with(|l| l.borrow_mut().take()));
-    if seen.iter().any(|n| *n != 4) {
-        tool_error("not every literal was exercised by tpl!, evt!, emit! and format!");
+    if seen.iter().any(|n| *n != 5) {
+        tool_error("not every literal was exercised by tpl!, evt!, emit!, format! and the trait-dispatched hooks");
     }
     // format-flag sites: args[3] = FMTSITE lines {"flags","kind":"pad"|"std","ty","src","raw","expect"}
     let mut fexpect: Vec<Value> = Vec::new();
@@ -123,8 +123,8 @@ fn main() {
         }
     };
     gen::run_fmt(&rt, &mut chkf, &|| LAST.with(|l| l.borrow_mut().take()));
-    if fseen.iter().any(|n| *n != 4) {
-        tool_error("not every format-flag site was exercised by tpl!, evt!, emit! and format!");
+    if fseen.iter().any(|n| *n != 5) {
+        tool_error("not every format-flag site was exercised by tpl!, evt!, emit!, format! and the trait-dispatched hooks");
     }
     rep.write(out);
 }
